@@ -12,6 +12,15 @@
 //!  (iv)  saved terms of the BSS-type drivers on graph-like diagrams with outputs: every
 //!        `done[i]` is Clifford and sum_i E(done[i]) == E(d) as tensors.
 //!
+//! Families: open-cat-grid (deterministic: one cat of every size / hub phase attached to
+//! outputs), closed-{random, cat-rich, gadget-rich, tpair-rich, t-only, multi-component},
+//! circuit-plugged (simp levels only), direct-steps, saved-terms.
+//!
+//! Step events are sorted by producing thread, so every run knows the verdicts of its own
+//! steps: a wrong end result whose run contains a violated step is counted as explained by
+//! that step's signature instead of being reported a second time (one root cause, one
+//! signature).
+//!
 //! Thorough tier only: Miri / ThreadSanitizer workloads via `harness/sanitize_c05.sh`.
 
 use crate::fw::{ctx, par_cases, Caught};
@@ -642,14 +651,17 @@ fn process_events(evs: Vec<StepEvent>, family: &str, index: u64) -> Vec<String> 
 // (i) + (ii): end-to-end on closed diagrams
 // ------------------------------------------------------------------------------------
 
-fn all_drivers(r: &mut Rng) -> Vec<Drv> {
+fn all_drivers(r: &mut Rng, tcount: usize) -> Vec<Drv> {
+    // Sherlock evaluates every candidate with a full simplification at every step; on
+    // large T-counts only the small candidate budgets are affordable
+    let tries = if tcount > 9 { r.pick(&[[1, 1, 1], [2, 2, 2], [3, 0, 0]]).to_vec() } else { r.pick(&SHERLOCK_TRIES).to_vec() };
     vec![
         Drv::BssT { random: false },
         Drv::BssT { random: true },
         Drv::Cats { random: false },
         Drv::Cats { random: true },
         Drv::DynT,
-        Drv::Sherlock(r.pick(&SHERLOCK_TRIES).to_vec()),
+        Drv::Sherlock(tries),
         Drv::Cut,
     ]
 }
@@ -740,7 +752,7 @@ fn check_closed<G: GraphLike>(family: &'static str, index: u64, r: &mut Rng, g: 
     let lease = Lease::take();
     let pools = lease.set();
     let mut runs = 0u64;
-    for drv in all_drivers(r) {
+    for drv in all_drivers(r, tcount) {
         for &simp in simps {
             for split in [false, true] {
                 if c.out_of_time() {
@@ -749,6 +761,11 @@ fn check_closed<G: GraphLike>(family: &'static str, index: u64, r: &mut Rng, g: 
                 let cfg = Cfg { drv: drv.clone(), simp, split };
                 // exponential drivers on large T-counts get a lighter sweep
                 let heavy = tcount > 9 && matches!(cfg.drv, Drv::Cut | Drv::Sherlock(_) | Drv::DynT);
+                if heavy && tcount > 10 && simp == SimpFunc::NoSimp && r.chance(0.5) {
+                    // 2^T terms without simplification: thinned out to keep a case well inside the watchdog
+                    c.count("heavy_configs_thinned_out", 1);
+                    continue;
+                }
                 let res = run_once(g, &cfg, Mode::Seq, pools);
                 let sv_seq = process_events(collect_events(Some(&pools.my_threads())), family, index);
                 let seq = judge_run(family, index, &cfg, Mode::Seq, res, &expected, desc, &sv_seq);
@@ -1499,6 +1516,6 @@ pub fn run() {
         judge_sanitizers(&v);
         c.extra("sanitizers", v);
     } else {
-        c.extra("sanitizers", json!("not run (thorough tier only)"));
+        c.extra("sanitizers", json!("not run (only in the thorough tier, not in replays, not with VERIF_SKIP_SANITIZERS set)"));
     }
 }
